@@ -28,7 +28,7 @@ CLAIMED = {
          "DESIGN.md §4 C04"),
  "C05": ("exploration",
          "generator-automaton enumeration of function bodies x capture configurations x argument tuples; differential execution of original vs reloaded vs re-emitted function",
-         "Function bodies = every node kind alone, every parent x child kind in every slot, depth-3 spines, plus binder-collision kinds (inner parameter / do-local / shorthand named like a captured name, postfix on captured values) over typed leaves; each under 16 capture configurations (negative, NaN, infinities, -0, strings with both quote kinds / backslash / newline, nested data, records with quoted keys, closures with their own captures, built-ins) and every argument pair of a 6/11-value pool: the original closure, its from_json(to_json(.)) reload in a fresh heap and the re-emitted reload must agree (equal value or both fail); the emitted text must itself be a lambda; a spread of functions also through the real `blots p1 | blots p2` pipeline.",
+         "Function bodies = every node kind alone, every parent x child kind in every slot, depth-3 spines, plus binder-collision kinds (inner parameter / do-local / shorthand named like a captured name, postfix on captured values) and do-blocks with an expression statement after another statement, over typed leaves; each under 16 capture configurations (negative, NaN, infinities, -0, strings with both quote kinds / backslash / newline, nested data, records with quoted keys, closures with their own captures, built-ins) and every argument pair of a 6/11-value pool: the original closure, its from_json(to_json(.)) reload in a fresh heap and the re-emitted reload must agree (equal value or both fail); the emitted text must itself be a lambda; a spread of functions also through the real `blots p1 | blots p2` pipeline.",
          "Function-valued results are compared by signature only (their behaviour is compared when they are called); self-recursive and late-bound functions are outside the statement; one recorded known finding (emitted text of root-pipe bodies is not itself a lambda, pinned by existing tests).",
          "DESIGN.md §4 C05"),
  "C06": ("exploration",
@@ -73,8 +73,8 @@ CLAIMED = {
          "DESIGN.md §4 C13"),
  "C14": ("exploration",
          "bounded-exhaustive enumeration of lists, strings and records with harness-side reference implementations of every law",
-         "Every list of length <= 4/5 over mixed / stability / string / nested alphabets plus periodic extensions to 40, every string of length <= 2/3 over a 24-code-point alphabet, and every small record are bound in a session; ~40 law programs per subject are compared with reference values computed on the harness's own value type (sort permutation/order/stability, unique, reverse, concat/spread, chunk/flatten, head/tail, slice, zip, range, keys/values/entries, group_by/count_by, split/join, indexing, character-based string functions).",
-         "Trusts the reference list/string functions in mc/src/c14.rs (Rust std on Vec/char); inputs outside the alphabets and non-integer indices are not explored.",
+         "Every list of length <= 4/5 over mixed / stability / string / nested alphabets plus periodic extensions to 40, every string of length <= 2/3 over a 24-code-point alphabet, and every small record are bound in a session; ~40 law programs per subject are compared with reference values computed on the harness's own value type (sort permutation/order/stability, unique, reverse, concat/spread, chunk/flatten, head/tail, slice, zip, range, keys/values/entries, group_by/count_by, split/join, indexing, character-based string functions). Fractional indices k + {1/4, 1/2, 3/4} around and inside the range must select one of the two adjacent elements and must select the same element from a subject and from its spread.",
+         "Trusts the reference list/string functions in mc/src/c14.rs (Rust std on Vec/char); inputs outside the alphabets are not explored; no rounding mode is assumed for fractional indices.",
          "DESIGN.md §4 C14"),
  "C15": ("exploration",
          "exhaustive enumeration of number lists over a 9-value alphabet with harness-side reference computations",
